@@ -197,6 +197,9 @@ def check_swap(m, f, rule):
             a = resolve_addr(f, ref)
             return a.root == root and (a.steps == ('h',) or (a.steps == () and a.coff == 0))
         empty_n = empty_p = ne_first = ne_last = False
+        sizes = listrules.current_values(f, root, ('size',), copies)
+        firsts = listrules.current_values(f, root, ('h', 'n'), copies)
+        lasts = listrules.current_values(f, root, ('h', 'p'), copies)
         for s in f.all_insts():
             if s.op != 'store' or not is_own_head(s.o[0]):
                 continue
@@ -204,32 +207,23 @@ def check_swap(m, f, rule):
             facts = pv.facts_at(s)
             size_zero = size_nz = False
             for (op, x, y) in facts:
-                xi = f.get(x)
-                if xi is not None and xi.op == 'load' and const_int(y) == 0:
-                    ax = resolve_addr(f, xi.o[0])
-                    if ax.root == root and ax.fsteps[-1:] == ((DL, 'size'),) and all(f.dominates(c, xi) for c in copies):
-                        if op == 'eq':
-                            size_zero = True
-                        elif op == 'ne' or op == 'ult':
-                            size_nz = True
-                if op == 'ult' and const_int(x) == 0:
-                    yi = f.get(y)
-                    if yi is not None and yi.op == 'load':
-                        ay = resolve_addr(f, yi.o[0])
-                        if ay.root == root and ay.fsteps[-1:] == ((DL, 'size'),) and all(f.dominates(c, yi) for c in copies):
-                            size_nz = True
+                if x in sizes and const_int(y) == 0:
+                    if op == 'eq':
+                        size_zero = True
+                    elif op == 'ne' or op == 'ult':
+                        size_nz = True
+                if op == 'ult' and const_int(x) == 0 and y in sizes:
+                    size_nz = True
             if a.root == root and a.steps == ('h', 'n') and size_zero:
                 empty_n = True
             if a.root == root and a.steps == ('h', 'p') and size_zero:
                 empty_p = True
             # through the first / last node
-            ri = f.get(a.root) if isinstance(a.root, str) else None
-            if ri is not None and ri.op == 'load' and size_nz:
-                ar = resolve_addr(f, ri.o[0])
-                if ar.root == root and ar.steps == ('h', 'n') and a.fsteps[-1:] == ((NODE, 'p'),) and all(f.dominates(c, ri) for c in copies):
-                    ne_first = True
-                if ar.root == root and ar.steps == ('h', 'p') and a.fsteps[-1:] == ((NODE, 'n'),) and all(f.dominates(c, ri) for c in copies):
-                    ne_last = True
+            ar0 = strip_bitcasts(f, a.root) if isinstance(a.root, str) else a.root
+            if size_nz and ar0 in firsts and a.fsteps[-1:] == ((NODE, 'p'),):
+                ne_first = True
+            if size_nz and ar0 in lasts and a.fsteps[-1:] == ((NODE, 'n'),):
+                ne_last = True
         miss = []
         if not (empty_n and empty_p):
             miss.append('an empty list is not re-anchored to its own head (h.n / h.p keep pointing into the other list object)')
@@ -277,6 +271,26 @@ def check_foreach(m, rule):
                             bound[cval] = fld
                     if _leads(pf, t.x['default'], bb):
                         bound.setdefault('default', fld)
+    if not bound:
+        # no selector functions: the links are read directly under tests of the direction
+        from ..facts import FactCache
+        fc = FactCache(pf)
+        dirkeys = {'$3'} | {i.ref for i in pf.all_insts() if i.op in ('zext', 'sext', 'trunc') and i.o[0] == '$3'}
+        fields = {fwd: set(), rev: set()}
+        for ld in pf.all_insts():
+            if ld.op != 'load':
+                continue
+            a = resolve_addr(pf, ld.o[0])
+            if not a.fsteps or a.fsteps[-1][0] != NODE or a.fsteps[-1][1] not in ('n', 'p'):
+                continue
+            fs = fc.block_facts(ld.block)
+            for d in (fwd, rev):
+                excluded = any((op == 'eq' and x in dirkeys and const_int(y) is not None and const_int(y) != d)
+                               or (op == 'ne' and x in dirkeys and const_int(y) == d) for (op, x, y) in fs)
+                if not excluded:
+                    fields[d].add(a.fsteps[-1][1])
+        if fields[fwd] and fields[rev]:
+            bound = {fwd: '/'.join(sorted(fields[fwd])), rev: '/'.join(sorted(fields[rev]))}
     bad = []
     if bound.get(fwd, bound.get('default')) != 'n':
         bad.append('direction FWD does not walk through the `n` (next) links')
